@@ -85,6 +85,9 @@ class Loop:
         for u in self.blocks:
             for v in body.succ[u]:
                 if v not in self.blocks:
+                    vb = body.blocks[v]
+                    if vb.term.kind == 'unreachable' and not vb.stmts:
+                        continue   # the `otherwise` arm of an exhaustive enum switch
                     out.append((u, v))
         return out
 
